@@ -11,6 +11,10 @@ to the encoder), then decoded by readControlMessage from a stream that hands
 out the bytes whole, in 1200-byte and in 7-byte pieces: equal value, stream
 exhausted to the byte, next read reports end of stream.  Manifest headers
 (0..300 items, unicode names) round-trip with a record chained behind.
+Live streams (driver ctrl-stream): real multi-file resumed transfers over the
+simulated connection, the sender giving up the processor after every Write on
+the control stream; the bytes each side wrote there are then decoded with the
+real decoder - header, then record after record to the last byte.
 """
 import os
 import vlib
@@ -29,12 +33,18 @@ def run(tier, seed):
     res = vlib.run_vh(['wire-values', '-edges', ev, '-seqs', es, '-fill', '3' if tier == "quick" else '40', '-seed', str(seed)], timeout=2400)
     for viol in res['violations']:
         v.violation(viol['sig'], viol.get('replay'))
+    # live streams: what real multi-file transfers (resume negotiation, several writer goroutines, the sender yielding
+    # after every control-stream write) put on the control stream in either direction decodes record by record to the last byte
+    ls = vlib.run_vh_sharded(['ctrl-stream', '-runs', '24' if tier == "quick" else '240', '-seed', str(seed)], 6, timeout=1800)
+    for viol in ls['violations']:
+        v.violation(viol['sig'], viol.get('replay'))
     if res['drift']:
         print("DRIFT C18: encoded lengths differ from Wire.tla's EncodedLen on %d values (not a verdict)" % res['drift'])
         v.notes.append(str(res.get('drift_samples', [])[:1])[:400])
     v.coverage = dict(evaluations=res['steps'], distinct_nontrivial=res['distinct'],
                       rule="TLC enumerates (record type, variable-length class, numeric boundary tuple with <=2 fields off nominal) and all type sequences up to MaxSeq; each is concretised with seeded fillings; distinct = abstract values",
                       samples=res['samples'][:10], exhaustive=True, rows_by_type=res['extra'].get('rows_by_type'), sequences=res['extra'].get('sequences'),
+                      live_control_streams=dict(transfers=ls['behaviours'], records_decoded=ls['steps'], outcomes=ls['extra'].get('outcomes'), records_by_type=ls['extra'].get('records_by_type')),
                       encoded_length_drift=res['drift'], tlc=dict(value_rows=r1['edges'], sequence_rows=r2['edges']))
     v.assumptions = ["values within the protocol's field limits (paths <= 1024 bytes and accepted by validateRelPath, ids / error texts <= 65535 bytes, bitmaps up to 64 KiB)",
                      "numeric fields: all singles and pairs at boundary classes, not the full product"]
